@@ -360,6 +360,7 @@ class Eval:
         self.math_unreachable = 0
         self.removals = 0
         self.samples = []
+        self.samples_rem = []
         self.rules_seen = set()
 
     def line(self, case, out, replay_name, crash_known=None):
@@ -393,8 +394,12 @@ class Eval:
             key = (r["svc"], lv, removed)
             self.distinct.add(key)
             if len(set(lv) - {"-"}) >= 2 or removed:
-                if key not in self.nontrivial and len(self.samples) < 6:
-                    self.samples.append({"service": r["svc"], "call": r["call"], "levels": lv, "trace": r.get("tr")})
+                if key not in self.nontrivial:
+                    smp = {"service": r["svc"], "call": r["call"], "levels": lv, "trace": r.get("tr")}
+                    if removed and len(self.samples_rem) < 3:
+                        self.samples_rem.append(smp)
+                    elif len(self.samples) < 3:
+                        self.samples.append(smp)
                 self.nontrivial.add(key)
             if r.get("rules", "-") != "-":
                 self.rules_seen.update(int(x) for x in r["rules"].split(","))
@@ -456,6 +461,10 @@ def compile_all(ctx):
     mdl = vf.ocaml_driver("logger")
     # coq/gen is shared: a concurrent check running for another tree (VERIF_REPO) may have rewritten the tables between
     # the proof step and the extraction.  Make sure the model was extracted from the tables of *this* tree.
+    import sys
+    tools = os.path.join(vf.ROOT, "tools")
+    if tools not in sys.path:
+        sys.path.insert(0, tools)
     import translate_rules
     for _ in range(3):
         want = translate_rules.gen_rule_table(vf.REPO), translate_rules.gen_issue_sites(vf.REPO)
@@ -476,7 +485,8 @@ def run(ctx):
         "the three LoggerImpl primitives are observed at link level (ld --wrap on addIssue / removeAllIssues / removeError); "
         "a service that wrote mIssues/mErrors directly would escape the trace but not the state comparison",
         "identity of Issue objects = address while alive (the driver keeps every traced issue alive)",
-        "the level of an issue is the one read by addIssue; no site changes the level of an issue after adding it (sites table)",
+        "the model takes the level of an issue as read by addIssue; the state comparison reads the levels again after the call, so a site that "
+        "changed a level after adding the issue would show up as a disagreement",
         "'an annotator lookup or assignment fails' is read as: item()/typed lookup returns UNDEFINED/nullptr, assignId returns \"\", "
         "or assignIds/assignAllIds returns false because no (or a null) model is stored; false for 'nothing left to assign' is not a failure (documented)",
         "a service call that does not return (crash / uncaught exception / timeout) is reported: after such a call there is neither a result "
@@ -742,7 +752,7 @@ def run(ctx):
                        "present or a removeError happened [%d distinct, %d non-trivial]; primitive sequences: distinct by text, non-trivial = two "
                        "levels added or a removeError present [%d]. Rule values 0..%d+ and the %d holder cases are enumerated completely." % (
                            len(ev.distinct), len(ev.nontrivial), len(distinct_ops), count, len(hcases)))
-    ctx.cov["samples"] = ev.samples[:5] + [ocases[len(ocases) // 2], ilines[0] if ilines else ""]
+    ctx.cov["samples"] = ev.samples_rem + ev.samples + [ocases[len(ocases) // 2], ilines[0] if ilines else ""]
     ctx.cov["input_distribution"] = hist
     ctx.cov["traces_validated_against_impl"] = len(trs) + len(ocases) + len(vals) + len(hcases)
     ctx.cov["exhaustive"] = False
